@@ -350,6 +350,48 @@ def _run(ctx):
                               desc, j=j, other=seen[im], image=list(im))
             seen[im] = j
 
+    # --- 3b. call-order independence: the image of j must not depend on which indices were asked before ----------
+    # (a map that keeps a scan position / memo between calls is only exposed by non-monotone query sequences:
+    #  descending sweeps, hops across block boundaries right after a call in the block above, random order)
+    hrng = ctx.rng('c11-order')
+    JH = ctx.pick(6000, 60000)
+    for name in names:
+        T = tables[name]
+        first = 1 if name != 'ansi' else 0
+        seqs = []
+        lo = first + ctx.shard * (JH // ctx.nshards)
+        hi = lo + JH // ctx.nshards
+        seqs.append(('descending', list(range(hi, lo - 1, -1))))
+        hops = []
+        for k in range(2, ctx.pick(120, 500)):
+            tri = k * (k + 1) // 2
+            sq = k * k
+            for base in (tri, sq):
+                # a call above the boundary, then the boundary itself and its neighbours, then far away, then back
+                hops += [base + k, base, base - 1, base + 1, base + 2 * k + 1, base - k, base]
+        hops = [j for j in hops if j >= first]
+        seqs.append(('boundary-hops', hops[ctx.shard::ctx.nshards] if ctx.nshards > 1 else hops))
+        seqs.append(('random-order', [int(v) for v in hrng.integers(first, JH * 4, ctx.pick(3000, 30000) // ctx.nshards)]))
+        for label, seq in seqs:
+            desc = {'wl': 'call-order', 'map': name, 'order': label, 'n_calls': len(seq), 'first': seq[:6], 'class': f'order:{name}:{label}'}
+            ctx.case(desc)
+            prev_j = None
+            for j in seq:
+                ctx.observe(f'order.{name}')
+                try:
+                    r = T['fwd'](j)
+                    im = (_as_int(r[0]), _as_int(r[1]))
+                except Exception as e:
+                    ctx.violation(f'C11/{T["fn"]}/call-order/raises:{type(e).__name__}', f'{T["fn"]}(j) raises after an earlier call with a different index',
+                                  desc, j=j, previous_call=prev_j)
+                    prev_j = j
+                    continue
+                want = T['ref'](j)
+                if im != tuple(want):
+                    ctx.violation(f'C11/{T["fn"]}/call-order/{label}', f'{T["fn"]}(j) depends on the indices asked before it (non-monotone query sequence)',
+                                  desc, j=j, previous_call=prev_j, got=list(im), want=list(want))
+                prev_j = j
+
     # documented rejection (out of domain, counted): xy_j_to_mn(j < 1) raises ValueError
     if ctx.shard == 0:
         with quiet():
